@@ -11,5 +11,6 @@ import SsqlVerif.Props.C17
 #print axioms C17.trigger_binding_same_call
 #print axioms C17.trigger_binding_sound
 #print axioms C17.global_trace_partial
+#print axioms C17.spec_determines_trace
 #print axioms C17.running_aggregate_eq
 #print axioms C17.facts_global_window
